@@ -28,6 +28,7 @@ from harness.core import PropSpec, Result, Violation, Ctx, run_model, CORPUS
 from bobocep.cep.event import BoboEventSimple, BoboHistory
 from bobocep.cep.engine.decider.runserial import BoboRunSerial
 from bobocep.dist.device import BoboDevice
+from bobocep.dist.devman import BoboDeviceManager
 from bobocep.dist.tcp import BoboDistributedTCP
 
 logging.disable(logging.CRITICAL)   # the loop logs every failed send; not an observable of this property
@@ -113,6 +114,55 @@ class FakeSock:
         pass
 
 
+POINTS = ('bs', 'bc', 'br', 'bp', 'ds', 'ba', 'end')
+
+
+class HookDev(BoboDeviceManager):
+    """the real device manager; its property reads / writes additionally tell the rig that the outgoing thread
+    is at one of the boundaries between atomic steps, so that the rig can run the listener there (single thread)."""
+    _rig = None
+
+    def _fire(self, pt):
+        r = self._rig
+        if r is not None and r.active:
+            r.fire(pt, BoboDeviceManager.urn.fget(self))
+
+    @property
+    def resets(self):
+        self._fire('bs')                       # before the reset counter is read
+        v = BoboDeviceManager.resets.fget(self)
+        self._fire('bc')                       # counter read, last_comms not yet
+        return v
+
+    @property
+    def last_comms(self):
+        v = BoboDeviceManager.last_comms.fget(self)
+        self._fire('br')                       # last_comms read, the rest not yet
+        return v
+
+    @last_comms.setter
+    def last_comms(self, v):
+        BoboDeviceManager.last_comms.fset(self, v)
+
+    @property
+    def flag_reset(self):
+        self._fire('bp')                       # top of the send-loop body
+        return BoboDeviceManager.flag_reset.fget(self)
+
+    @flag_reset.setter
+    def flag_reset(self, v):
+        BoboDeviceManager.flag_reset.fset(self, v)
+
+    @property
+    def last_attempt(self):
+        return BoboDeviceManager.last_attempt.fget(self)
+
+    @last_attempt.setter
+    def last_attempt(self, v):
+        self._fire('ba')                       # bookkeeping done except `last_attempt = now`
+        BoboDeviceManager.last_attempt.fset(self, v)
+
+
 class Rig:
     """one real BoboDistributedTCP instance under scripted clock / wire."""
 
@@ -122,6 +172,12 @@ class Rig:
         kw = {} if cfg is None else dict(zip(CFG_KEYS, cfg))
         self.t = BoboDistributedTCP(self_urn, self.decider, devices, StubCrypto(), flag_reset=bool(flag), **kw)
         self.t._running = True          # what run() sets after starting the threads
+        for d in self.t._devices.values():
+            d.__class__ = HookDev
+            d._rig = self
+        self.active = False
+        self.sched = {}
+        self.fired = []
         self.now_decision = 0
         self.post = {}
         self.err = {}
@@ -143,14 +199,29 @@ class Rig:
         lists = []
         for k in ('completed', 'halted', 'updated'):
             lists.append([BoboRunSerial.from_json_str(x).run_id for x in obj.get(k, [])])
-        self.wire.append((d.urn, msg_type, msg_flags, lists))
-        self.pending = self.post[d.urn]
-        return self.err[d.urn]
+        urn = BoboDeviceManager.urn.fget(d)
+        self.wire.append((urn, msg_type, msg_flags, lists))
+        self.fire('ds', urn)              # the listener may run while the send is in progress
+        self.pending = self.post[urn]
+        return self.err[urn]
+
+    def fire(self, pt, urn):
+        """the outgoing thread is at boundary `pt` of device `urn`: run the listener's scheduled steps."""
+        evs = self.sched.pop((pt, urn), None)
+        if not evs:
+            return
+        self.active = False
+        try:
+            for (frm, mtype, flags) in evs:
+                self.incoming(frm, mtype, flags)
+                self.fired.append((pt, urn, frm, mtype, flags, len(self.wire)))
+        finally:
+            self.active = True
 
     # -- operations ---------------------------------------------------------
-    def set(self, urn, lc, la, fl, c, h, u):
+    def set(self, urn, lc, la, rs, fl, c, h, u):
         d = self.t._devices[urn]
-        d._last_comms, d._last_attempt, d._flag_reset = lc, la, bool(fl)
+        d._last_comms, d._last_attempt, d._resets, d._flag_reset = lc, la, rs, bool(fl)
         d._stash_completed, d._stash_halted, d._stash_updated = [rec(x) for x in c], [rec(x) for x in h], [rec(x) for x in u]
 
     def push(self, c, h, u):
@@ -163,7 +234,7 @@ class Rig:
         import time as _time
         self.t._tcp_incoming_handle_client(FakeSock(data), d.addr, int(_time.time()))
 
-    def one_pass(self, now, snap, outcomes):
+    def one_pass(self, now, snap, outcomes, mid=()):
         self.decider.snap = tuple([rec(x) for x in l] for l in snap)
         self.now_decision = now
         self.err = {u: o[0] for u, o in outcomes.items()}
@@ -171,17 +242,26 @@ class Rig:
         self.pending = None
         self.wire = []
         self.clock_reads = 0
+        self.sched = {}
+        self.fired = []
+        for (pt, urn, frm, mtype, flags) in mid:
+            self.sched.setdefault(('end', None) if pt == 'end' else (pt, urn), []).append((frm, mtype, flags))
         self.t._thread_closed = False
         self.t._lock_in_out = PassLock(self.t, 1)
-        self.t._tcp_outgoing()
+        self.active = True
+        try:
+            self.t._tcp_outgoing()
+            self.fire('end', None)
+        finally:
+            self.active = False
         return list(self.wire)
 
     # -- observation ---------------------------------------------------------
     def fields(self):
         out = {}
         for urn, d in self.t._devices.items():
-            c, h, u = d.stash()
-            out[urn] = {'lc': d.last_comms, 'la': d.last_attempt, 'fr': d.flag_reset, 'c': ids(c), 'h': ids(h), 'u': ids(u)}
+            out[urn] = {'lc': d._last_comms, 'la': d._last_attempt, 'rs': d._resets, 'fr': d._flag_reset,
+                        'c': ids(d._stash_completed), 'h': ids(d._stash_halted), 'u': ids(d._stash_updated)}
         return out
 
     def queue_ids(self):
@@ -189,7 +269,8 @@ class Rig:
 
     def state_line(self):
         f = self.fields()
-        return ' ; '.join('|'.join([u, str(x['lc']), str(x['la']), '1' if x['fr'] else '0', show_list(x['c']), show_list(x['h']), show_list(x['u'])])
+        return ' ; '.join('|'.join([u, str(x['lc']), str(x['la']), str(x['rs']), '1' if x['fr'] else '0',
+                                    show_list(x['c']), show_list(x['h']), show_list(x['u'])])
                           for u, x in f.items()) + ' q=%d' % self.t._queue_outgoing.qsize()
 
 
@@ -215,8 +296,37 @@ def expected_type(cfg, c, a, q_empty, stash):
     return None                       # in contact, nothing to say
 
 
-def oracle_pass(case, k, cfg, self_urn, before, qbefore, now, snap, outcomes, wire, after, qafter_len):
-    """returns [(sig, what)] for one pass of the real loop."""
+def reset_positions(self_urn, before, wire, fired):
+    """where, relative to the outgoing thread's steps for device u, did the listener handle a RESET from u?
+    Positions on one axis: device k of the decision phase (dict order, self skipped):  bs=4k  R  bc=4k+1  C(last_comms read)
+    br=4k+2  X(rest read, decision);  entry m of the send phase: bp=B+4m  P  ds=B+4m+1  K(contact recorded)  ba=B+4m+2
+    T(last_attempt written);  end = +inf.  Returns {u: [positions of RESETs received from u]}, and pos_of(u, step)."""
+    others = [u for u in before if u != self_urn]
+    base = 4 * len(others)
+    dec_idx = {u: k for k, u in enumerate(others)}
+    ent_idx = {w[0]: m for m, w in enumerate(wire)}
+    off = {'bs': 0, 'bc': 1, 'br': 2, 'bp': 0, 'ds': 1, 'ba': 2}
+    resets = {u: [] for u in others}
+    for (pt, urn, frm, mtype, flags, _) in fired:
+        if flags & 1 != 1 or frm not in resets:
+            continue
+        if pt == 'end':
+            q = float('inf')
+        elif pt in ('bs', 'bc', 'br'):
+            q = 4 * dec_idx[urn] + off[pt]
+        else:
+            q = base + 4 * ent_idx[urn] + off[pt]
+        resets[frm].append(q)
+
+    def pos_of(u, step):
+        if step in ('R', 'C', 'X'):
+            return 4 * dec_idx[u] + {'R': 0.5, 'C': 1.5, 'X': 2.5}[step]
+        return base + 4 * ent_idx[u] + {'P': 0.5, 'K': 1.5, 'T': 2.5}[step]
+    return resets, pos_of
+
+
+def oracle_pass(case, k, cfg, self_urn, before, qbefore, now, snap, outcomes, wire, after, qafter_len, fired=()):
+    """returns [(sig, what)] for one pass of the real loop (possibly with listener steps inside the pass)."""
     bad = []
     sent = {}
     for (u, t, fl, l) in wire:
@@ -226,26 +336,41 @@ def oracle_pass(case, k, cfg, self_urn, before, qbefore, now, snap, outcomes, wi
     order = [u for u in before if u in sent]
     if [w[0] for w in wire] != order:
         bad.append(('wire-order', f"pass {k}: messages not in device order: {[w[0] for w in wire]}"))
+    if bad:
+        return bad
+    resets, pos_of = reset_positions(self_urn, before, wire, fired)
     q_empty = len(qbefore) == 0
     item = qbefore[0] if qbefore else [[], [], []]
     any_sync = False
     for u, b in before.items():
         if u == self_urn:
-            if after[u] != b:
+            exp_self = dict(b)
+            n_self = sum(1 for f in fired if f[2] == u and f[4] & 1 == 1)
+            if n_self:
+                exp_self.update(lc=0, la=0, rs=b['rs'] + n_self)
+            if after[u] != exp_self:
                 bad.append(('untouched-peer-changed', f"pass {k}: own device entry changed"))
             continue
+        rq = resets[u]
         st = len(b['c']) + len(b['h']) + len(b['u'])
-        c, a = now - b['lc'], now - b['la']
+        lc_read = 0 if any(q < pos_of(u, 'C') for q in rq) else b['lc']     # what the decision saw
+        la_read = 0 if any(q < pos_of(u, 'X') for q in rq) else b['la']
+        c, a = now - lc_read, now - la_read
         exp = expected_type(cfg, c, a, q_empty, st)
         got = sent[u][0] if u in sent else None
-        ctxt = f"pass {k} peer {u}: since-contact={c} since-attempt={a} queue={'empty' if q_empty else len(qbefore)} backlog={st} periods={cfg}"
+        mids = f" resets-from-{u}-at={rq}" if rq else ''
+        ctxt = f"pass {k} peer {u}: since-contact={c} since-attempt={a} queue={'empty' if q_empty else len(qbefore)} backlog={st} periods={cfg}{mids}"
         if got != exp:
             bad.append(('mode-selection', f"{ctxt}: documented choice is {TNAME[exp]}, loop chose {TNAME[got]}"))
             continue
         af = after[u]
+        exp_rs = b['rs'] + len(rq)
         if got is None:
-            if af != b:
-                bad.append(('untouched-peer-changed', f"{ctxt}: nothing sent but device fields changed {b} -> {af}"))
+            exp_after = dict(b)
+            if rq:
+                exp_after.update(lc=0, la=0, rs=exp_rs)
+            if af != exp_after:
+                bad.append(('untouched-peer-changed', f"{ctxt}: nothing sent but device fields {b} -> {af}, expected {exp_after}"))
             continue
         t, fl, l = sent[u]
         err, post = outcomes[u]
@@ -261,8 +386,29 @@ def oracle_pass(case, k, cfg, self_urn, before, qbefore, now, snap, outcomes, wi
         if l != exp_pl:
             bad.append(('payload', f"{ctxt}: {TNAME[t]} carried {l}, expected {exp_pl}"))
         clamp = max(0, post)
+        # last_attempt: written last; a RESET handled after that write clears it again
+        exp_la = 0 if any(q > pos_of(u, 'T') for q in rq) else clamp
+        # last_comms: a RESET handled after the decision read last_comms must survive the pass (it must read 0 at the
+        # end, whatever the send did); a successful send is recorded as contact iff no RESET arrived since the decision
+        # (between the read of the counter and the read of last_comms either outcome is acceptable: the decision
+        # already saw the cleared time)
+        after_c = any(q > pos_of(u, 'C') for q in rq)
+        window = any(pos_of(u, 'R') < q < pos_of(u, 'C') for q in rq)
+        if after_c:
+            ok_lc = {0}
+        elif err == 0:
+            ok_lc = {clamp, 0} if window else {clamp}
+        else:
+            ok_lc = {lc_read}
+        if af['lc'] not in ok_lc:
+            if after_c:
+                bad.append(('reset-overwritten', f"{ctxt}: a RESET from {u} was handled after the decision read the contact time, but at the "
+                                                 f"end of the pass last_comms={af['lc']} (must be 0 so that the next message is a RESYNC)"))
+            else:
+                bad.append(('bookkeeping-success' if err == 0 else 'bookkeeping-failure',
+                            f"{ctxt}: {TNAME[t]} {'delivered' if err == 0 else 'failed'}, clock after send {post}: last_comms={af['lc']}, expected one of {sorted(ok_lc)}"))
         if err == 0:
-            exp_after = {'lc': clamp, 'la': clamp, 'fr': False,
+            exp_after = {'lc': af['lc'], 'la': exp_la, 'rs': exp_rs, 'fr': False,
                          'c': b['c'] if t == PING else [], 'h': b['h'] if t == PING else [], 'u': b['u'] if t == PING else []}
             if af != exp_after:
                 bad.append(('bookkeeping-success', f"{ctxt}: {TNAME[t]} delivered, clock after send {post}: fields {af}, expected {exp_after}"))
@@ -273,7 +419,7 @@ def oracle_pass(case, k, cfg, self_urn, before, qbefore, now, snap, outcomes, wi
                 sc, sh, su = [], [], []
             else:
                 sc, sh, su = b['c'], b['h'], b['u']
-            exp_after = {'lc': b['lc'], 'la': clamp, 'fr': b['fr'], 'c': sc, 'h': sh, 'u': su}
+            exp_after = {'lc': af['lc'], 'la': exp_la, 'rs': exp_rs, 'fr': b['fr'], 'c': sc, 'h': sh, 'u': su}
             if af != exp_after:
                 bad.append(('bookkeeping-failure', f"{ctxt}: {TNAME[t]} failed (code {err}), clock after send {post}: fields {af}, expected {exp_after}"))
     exp_q = len(qbefore) - (1 if (any_sync and qbefore) else 0)
@@ -283,17 +429,24 @@ def oracle_pass(case, k, cfg, self_urn, before, qbefore, now, snap, outcomes, wi
 
 
 def oracle_sequences(cfg, self_urn, flag0, logs, all_late):
-    """per-peer sequence predicates. logs[u] = list of ('att', now, q_empty, type, flags, err, post) / ('reset',)."""
+    """per-peer sequence predicates. logs[u] = list of ('att', now, q_empty, type, flags, err, post) / ('reset',) /
+    ('reset_late',): a RESET handled after the decision of the following message had read last_comms but before it
+    read last_attempt (pacing restarts before that message, the RESYNC obligation starts after it)."""
     pp, pr, a_st, a_pi, a_re = cfg
     bad = []
     for u, log in logs.items():
         prev = None
         flag = flag0[u]
         pending = False
+        pending_next = False
         for ev in log:
             if ev[0] == 'reset':
                 prev = None
                 pending = True
+                continue
+            if ev[0] == 'reset_late':
+                prev = None
+                pending_next = True
                 continue
             _, now, q_empty, t, fl, err, post = ev
             if prev is not None:
@@ -311,6 +464,8 @@ def oracle_sequences(cfg, self_urn, flag0, logs, all_late):
                     pending = False
             elif pending and err == 0 and t == RESYNC:
                 pending = False
+            if pending_next:
+                pending, pending_next = True, False
             prev = ev
     return bad
 
@@ -337,9 +492,9 @@ def run_case(case):
     k = 0
     for op in case['ops']:
         if op[0] == 'set':
-            _, u, lc, la, fl, c, h, uu = op
-            rig.set(u, lc, la, fl, c, h, uu)
-            lines.append('set %s %d %d %d %s %s %s' % (u, lc, la, fl, show_list(c), show_list(h), show_list(uu)))
+            _, u, lc, la, rs, fl, c, h, uu = op
+            rig.set(u, lc, la, rs, fl, c, h, uu)
+            lines.append('set %s %d %d %d %d %s %s %s' % (u, lc, la, rs, fl, show_list(c), show_list(h), show_list(uu)))
             impl.append(rig.state_line())
             if u in logs:
                 logs[u] = []          # fields overwritten by the harness: restart the sequence predicates
@@ -358,6 +513,7 @@ def run_case(case):
             if fl & 1 == 1:
                 exp[u]['lc'] = 0
                 exp[u]['la'] = 0
+                exp[u]['rs'] += 1
                 if u in logs:
                     logs[u].append(('reset',))
             if after != exp:
@@ -365,23 +521,40 @@ def run_case(case):
             lines.append('in %s %d' % (u, fl))
             impl.append(rig.state_line())
         elif op[0] == 'pass':
-            _, now, snap, outcomes = op
+            now, snap, outcomes = op[1], op[2], op[3]
+            mid = [tuple(m) for m in (op[4] if len(op) > 4 else [])]
             outcomes = {u: tuple(v) for u, v in outcomes.items()}
             before = rig.fields()
             qbefore = rig.queue_ids()
-            wire = rig.one_pass(now, snap, outcomes)
+            wire = rig.one_pass(now, snap, outcomes, mid)
+            fired = list(rig.fired)
             after = rig.fields()
             k += 1
             if now < cfg[1]:
                 all_late = False
-            bad += oracle_pass(case, k, cfg, self_urn, before, qbefore, now, snap, outcomes, wire, after, rig.t._queue_outgoing.qsize())
+            pbad = oracle_pass(case, k, cfg, self_urn, before, qbefore, now, snap, outcomes, wire, after, rig.t._queue_outgoing.qsize(), fired)
+            bad += pbad
             if rig.clock_reads != 1 + len(wire):
                 bad.append(('clock-reads', f"pass {k}: {rig.clock_reads} clock readings for {len(wire)} sends"))
-            for (u, t, fl, l) in wire:
-                if u in logs:
-                    logs[u].append(('att', now, len(qbefore) == 0, t, fl, outcomes[u][0], outcomes[u][1]))
-            lines.append('pass %d %s %s %s %s' % (now, show_list(snap[0]), show_list(snap[1]), show_list(snap[2]),
-                                                  ' '.join('%s:%d:%d' % (u, outcomes[u][0], outcomes[u][1]) for u in urns if u != self_urn)))
+            if not any(sig in ('wire-duplicate', 'wire-order') for sig, _ in pbad):
+                resets, pos_of = reset_positions(self_urn, before, wire, fired)
+                sent = {w[0]: w for w in wire}
+                for u in logs:
+                    rq = resets[u]
+                    if u in sent:
+                        _, t, fl, l = sent[u]
+                        logs[u] += [('reset',)] * sum(1 for q in rq if q < pos_of(u, 'C'))
+                        logs[u] += [('reset_late',)] * sum(1 for q in rq if pos_of(u, 'C') < q < pos_of(u, 'X'))
+                        logs[u].append(('att', now, len(qbefore) == 0, t, fl, outcomes[u][0], outcomes[u][1]))
+                        logs[u] += [('reset',)] * sum(1 for q in rq if q > pos_of(u, 'X'))
+                    else:
+                        logs[u] += [('reset',)] * len(rq)
+            head = '%d %s %s %s %s' % (now, show_list(snap[0]), show_list(snap[1]), show_list(snap[2]),
+                                       ' '.join('%s:%d:%d' % (u, outcomes[u][0], outcomes[u][1]) for u in urns if u != self_urn))
+            if mid:
+                lines.append('passmid ' + head + ' @ ' + ' '.join('%s:%s:%s:%d' % (pt, urn, frm, flags) for (pt, urn, frm, mtype, flags) in mid))
+            else:
+                lines.append('pass ' + head)
             impl.append('wires=' + wire_line(wire) + ' # ' + rig.state_line())
         else:
             raise ValueError(op)
@@ -414,17 +587,40 @@ def grid_cases(ctx: Ctx):
             for c, a, qn, sti, fl, err in itertools.product(cs, as_, (0, 1, 2), (0, 1), (0, 1), (0, 1, 2)):
                 urns = ['a', 'b'] if npeers == 1 else rng.choice([['a', 'b', 'c'], ['b', 'a', 'c'], ['b', 'c', 'a']])
                 stash = STASHES[0] if sti == 0 else STASHES[1 + (c + a + qn) % 2]
-                ops = [['set', 'b', NOW - c, NOW - a, fl, *stash]]
+                ops = [['set', 'b', NOW - c, NOW - a, (c + qn) % 3, fl, *stash]]
                 outcomes = {'b': [err, NOW + (c + a) % 3]}
                 if npeers == 2:
                     c2, a2 = rng.choice(cs), rng.choice(as_)
                     st2 = rng.choice([([], [], []), ([], ['t1'], []), (['t2'], [], ['t3'])])
-                    ops.append(['set', 'c', NOW - c2, NOW - a2, rng.randint(0, 1), *st2])
+                    ops.append(['set', 'c', NOW - c2, NOW - a2, rng.randint(0, 2), rng.randint(0, 1), *st2])
                     outcomes['c'] = [rng.choice((0, 0, 1, 2)), NOW + rng.randint(0, 4)]
                 for i in range(qn):
                     ops.append(['push', ['q%dc' % i], [] if i else ['q0h'], ['q%du' % i]])
                 ops.append(['pass', NOW, [['n1'], [], ['n2', 'n3']], outcomes])
                 yield {'self': 'a', 'urns': urns, 'cfg': list(cfgv) if cfgv else None, 'flag': fl, 'ops': ops, 'kind': 'grid'}
+
+
+def mid_grid_cases(ctx: Ctx):
+    """one pass with ONE listener step inside it: every boundary × what the pass sends to b (SYNC from the queue, SYNC of the
+    backlog alone, PING, RESYNC, nothing) × send outcome × who the incoming message is from × its flags × 3 configurations."""
+    NOW = 1000
+    for cfgv in CFGS:
+        pp, pr, a_st, a_pi, a_re = cfgv or DEFAULT_CFG
+        states = {
+            'sync-queue': (['set', 'b', NOW - 1, NOW - 1, 0, 0, [], [], []], 1),
+            'sync-backlog': (['set', 'b', NOW - 1, NOW - a_st, 2, 1, ['s1'], [], []], 0),
+            'ping': (['set', 'b', NOW - pp, NOW - a_pi, 1, 0, [], [], []], 0),
+            'resync': (['set', 'b', NOW - pr, NOW - a_re, 0, 1, [], ['s2'], []], 1),
+            'nothing': (['set', 'b', NOW - 1, NOW - 1, 5, 0, [], [], []], 0),
+        }
+        for (name, (setb, qn)), pt, err, frm, flags in itertools.product(states.items(), POINTS, (0, 1), ('b', 'c'), (1, 2, 3)):
+            ops = [setb, ['set', 'c', NOW - 2, NOW - 2, 1, 0, ['t1'], [], []]]
+            for i in range(qn):
+                ops.append(['push', ['q%d' % i], [], []])
+            owner = 'b' if pt in ('bs', 'bc', 'br') or name != 'nothing' else 'c'
+            ops.append(['pass', NOW, [['n1'], [], []], {'b': [err, NOW + 1], 'c': [0, NOW + 2]}, [[pt, owner, frm, PING, flags]]])
+            ops.append(['pass', NOW + max(pr, a_re) + 3, [['n1'], [], []], {'b': [0, NOW + max(pr, a_re) + 3], 'c': [0, NOW + max(pr, a_re) + 3]}])
+            yield {'self': 'a', 'urns': ['a', 'b', 'c'], 'cfg': list(cfgv) if cfgv else None, 'flag': 0, 'ops': ops, 'kind': 'midgrid'}
 
 
 def random_case(rng, idx):
@@ -460,7 +656,16 @@ def random_case(rng, idx):
                     err = rng.choice((1, 2)) if rng.random() < p_fail else 0
                     post = now + rng.choice((0, 0, 1, 3)) - (rng.randint(0, 4) if weird else 0)
                     outcomes[u] = [err, post]
-            ops.append(['pass', now, [fresh(), fresh(1), fresh()], outcomes])
+            op = ['pass', now, [fresh(), fresh(1), fresh()], outcomes]
+            if rng.random() < 0.35:      # the listener handles messages while the pass is in progress
+                peers = [u for u in urns if u != self_urn]
+                mid = []
+                for _ in range(rng.choice((1, 1, 2, 3))):
+                    owner = rng.choice(peers)
+                    mid.append([rng.choice(POINTS), owner, owner if rng.random() < 0.7 else rng.choice(peers),
+                                rng.choice((SYNC, PING, RESYNC)), rng.choice((1, 1, 1, 0, 2, 3))])
+                op.append(mid)
+            ops.append(op)
         elif x < 0.85:
             ops.append(['push', fresh(), fresh(1), fresh()])
         else:
@@ -490,7 +695,7 @@ def classify(res: Result, case, logs):
     n_att = 0
     for u, log in logs.items():
         for ev in log:
-            if ev[0] == 'reset':
+            if ev[0] in ('reset', 'reset_late'):
                 res.count('received_reset')
             else:
                 n_att += 1
@@ -510,6 +715,10 @@ def evaluate(ctx: Ctx, cases, res: Result, compare=True):
         n_att = classify(res, case, logs)
         slim = {k: v for k, v in case.items() if k != 'kind'}
         res.add_case(slim, nontrivial=n_att > 0 or any(op[0] == 'in' for op in case['ops']))
+        for op in case['ops']:
+            if op[0] == 'pass' and len(op) > 4:
+                for m in op[4]:
+                    res.count('listener_step_inside_pass_' + m[0])
         for sig, what in bad[:3]:
             res.violations.append(Violation(sig, what, slim))
         owners += [ci] * len(lines)
@@ -540,6 +749,7 @@ def run(ctx: Ctx) -> Result:
         return res
     cases = list(corpus_cases())
     cases += list(grid_cases(ctx))
+    cases += list(mid_grid_cases(ctx))
     for i in range(20000 if ctx.thorough else 400):
         cases.append(random_case(ctx.rng, i))
     evaluate(ctx, cases, res)
@@ -551,7 +761,7 @@ def search(ctx: Ctx) -> Result:
     """failing-input search on the real code alone with the oracle: the whole single-pass grid with *every*
     second-peer threshold state on a coarser grid, then long random runs."""
     res = Result()
-    cases = list(corpus_cases()) + list(grid_cases(ctx))
+    cases = list(corpus_cases()) + list(grid_cases(ctx)) + list(mid_grid_cases(ctx))
     for i in range(4000):
         cases.append(random_case(ctx.rng, i))
     evaluate(ctx, cases, res, compare=False)
